@@ -269,7 +269,15 @@ pub enum Build {
     /// Event::Eof written in the middle of the sequence (writes nothing)
     Eof,
     /// Writer::create_element(name).with_attribute(..)* then one of the content calls
-    Builder { name: String, attrs: Vec<(String, String)>, content: BuilderContent },
+    Builder {
+        name: String,
+        attrs: Vec<(String, String)>,
+        content: BuilderContent,
+        /// bit i: ElementWriter::new_line() before attribute i; bit 7: the remaining
+        /// attributes are passed in one with_attributes(iter) call
+        #[serde(default)]
+        nl: u8,
+    },
 }
 
 #[derive(Serialize, Deserialize, Clone, Debug, PartialEq, Eq, Hash)]
